@@ -222,7 +222,10 @@ M.loop('exactly_lib.common.instruction_name_and_argument_splitter:splitter', 0,
        invariant=lambda idx, l: 1 <= idx and idx <= l, modifies=dict(idx=Int),
        decreases=lambda idx, l: l - idx)
 
-import z3 as _z3
+try:
+    import z3 as _z3
+except ImportError:      # replay scripts run under the repository's interpreter, without z3
+    _z3 = None
 from pyvc.values import SStr as _SStr, to_z3 as _to_z3, wrap as _wrap
 
 _SOURCE_STATE = ('current_line', 'remaining_source', 'remaining_part_of_current_line')
